@@ -77,7 +77,10 @@ macro_rules! impl_wide_float {
             impl IsValidDivisor for $ty {
                 #[inline]
                 fn is_valid_divisor(&self) -> Self {
-                    !self.cmp_eq($ty::ZERO)
+                    // Same as `is_normal` for the scalar types: not zero,
+                    // subnormal, infinite or NaN.
+                    let abs = $ty::abs(*self);
+                    abs.cmp_ge($ty::splat($scalar::MIN_POSITIVE)) & abs.cmp_le($ty::splat($scalar::MAX))
                 }
             }
 
